@@ -26,7 +26,7 @@ SPEC = {
     "shards": {"quick": 16, "thorough": 16},
     "min_counts": {"quick": {"evaluations": 1000, "yields_checked": 5000, "loops_checked": 1500, "removed_checked": 1000,
                              "untouched_checked": 1000, "nested_loops": 300, "later_passes": 500,
-                             "reused_populate_objects": 200, "snapshots_taken": 200, "uformat_destinations": 300, "subfibers_assigned_whole": 300, "free_uformat_sources": 100}},
+                             "reused_populate_objects": 200, "snapshots_taken": 200, "uformat_destinations": 300, "subfibers_assigned_whole": 300, "existing_leaf_left_at_default_checked": 1000, "free_uformat_sources": 100}},
     "assumptions": [
         "pre-existing explicit defaults of z that the body leaves alone may stay or be removed (only content is compared for them)",
         "bodies that break / raise are judged on WF and RC only",
@@ -301,6 +301,11 @@ def run_case(case, mon):
                 st["kept"] += 1
             else:
                 st["left"] += 1
+            if leaf and c in before_z and not under:
+                # a leaf element that was stored before and ends the body at the default leaves no element behind either
+                mon.count("existing_leaf_left_at_default_checked")
+                mon.check(c not in now, "populate:left-behind:existing-leaf",
+                          f"coordinate {pt} was stored, offered and ended at the default, but z still holds an element there")
             if c not in before_z and not under:
                 mon.count("removed_checked")
                 mon.check(c not in now, "populate:left-behind",
